@@ -32,6 +32,10 @@ func readerOracle(c *Ctx, class string, crc bool, stream []byte, sizes []int) st
 	if max < 0 {
 		max = 0
 	}
+	// decompression-bomb bound (theorem C03.decode_output_proportional: at most 48 output bytes per stream byte)
+	if len(data) > 48*len(stream) {
+		c.Violate("C08:expansion-above-48x:"+class, fmt.Sprintf("Reader yielded %d bytes from a %d-byte stream (more than 48 per byte)", len(data), len(stream)), rep)
+	}
 	if len(data) > max {
 		c.Violate("C08:more-than-declared:"+class, fmt.Sprintf("Reader yielded %d bytes, header declares %d", len(data), size), rep)
 	}
@@ -181,6 +185,18 @@ func init() {
 				}
 				body, size := canonEncodeTokens(toks)
 				add("token-probe", crc, canonStreamOf(crc, body, size), pick())
+			}
+			// maximal expansion: long runs compress to ~1 bit per 6 bytes; also with the declared size raised to 2^30
+			for _, n := range []int{600, 20000, c.Budget(100000, 600000)} {
+				_, valid := implLzw(crc, bytes.Repeat([]byte{' '}, n), nil, false)
+				add("max-expansion", crc, valid, []int{4096})
+				m := append([]byte{}, valid...)
+				copy(m[hdr:], le32b(1<<30))
+				if crc {
+					sum := crc16Xmodem(m[2:])
+					m[0], m[1] = byte(sum), byte(sum>>8)
+				}
+				add("max-expansion-size-2^30", crc, m, []int{4096})
 			}
 			// random bytes
 			for i := 0; i < c.Budget(400, 6000); i++ {
